@@ -154,3 +154,11 @@ add("C07", "exploration", ["dbh"], dbh("c07", ["--n", "96"], ["--n", "3000", "--
     "known_findings.json by call site; any other site is a violation.",
     "Dev profile. A mutant that makes a read loop forever is reported as inconclusive (watchdog), not as a C07 violation (termination is C19).",
     "DESIGN.md §6 C07")
+
+add("C22", "exploration", ["dbh"], dbh("c22", ["--n", "480"], ["--n", "8000"]),
+    "read-back equality and targeted-update oracle over a corpus of derived user types",
+    "A corpus of types deriving DbType / DbValue / DbTypeMarker / DbSerialize (scalars, all vector kinds, Option fields, enum and struct value types, "
+    "vectors of them, both id field types, rename, skip, flatten) with generated field values, inserted in batches and singly on three variants, "
+    "selected back as the type and updated through the id field (update visible, exact dump of all other elements unchanged).",
+    "An update that turns Some(x) into None is not judged: None fields are not written, and the property does not state that an absent field removes a stored key.",
+    "DESIGN.md §6 C22")
